@@ -520,7 +520,9 @@ class C10(Check):
             K = rng.randint(2, 4)
             wt = rng.choice("uuur")
             recs, L = gen.records(rng, wt=wt)
-            diag = [rng.choice([rng.random() * 2, rng.random(), 0.0]) for _ in range(K * L)]
+            # zeros and strictly positive values at / below / just above the truncation threshold included
+            diag = [rng.choice([rng.random() * 2, rng.random(), rng.random(), 0.0, 5e-7, 1e-6, 9.9e-7, 1.01e-6, 2e-6])
+                    for _ in range(K * L)]
             full = [0.0] * (K * K * L)
             for a in range(L):
                 for k in range(K):
@@ -700,8 +702,57 @@ class C12(Check):
                     self.violate("label-dependent", "relabelling (type %s) changes %s" % (lt, diff),
                                  dict(rc.describe(), label_map={str(k): str(v) for k, v in mp.items()}, new_label_type=lt,
                                       case_original=rc.line("a")))
+        self.cli_relabel(rng)
         self.cov["rule"] = ("each run paired with 3-4 injective relabellings of the same records: order-reversing huge size_t (up to 2^63+), negative int, "
                             "std::string; numeric results compared bitwise, rows must carry the mapped labels; distinct by (label type, map, records, seed)")
+
+
+def _c12_cli_relabel(self, rng):
+    """the same property through the command line: adjacency files that differ only by an injective
+    relabelling (incl. labels >= 2^31, >= 2^32) must give files that differ only in the row labels"""
+    import os
+    import shutil
+    from .props_c import render_adjacency, run_cli, read_tokens
+    work = os.path.join(self.bdir, "scratch", "cli12")
+    for k in range(6 if self.tier == "quick" else 40):
+        directed, assort = rng.random() < 0.5, rng.random() < 0.5
+        K = rng.choice([2, 3])
+        recs, L = gen.records(rng, wt="u", N=rng.randint(3, 6))
+        labs = gen.first_appearance(recs)
+        pool = [2 ** 31, 2 ** 31 + 7, 2 ** 32, 2 ** 32 + 5, 3000000000, 10 ** 12, 2 ** 62, 2 ** 63 + 11, 4, 99]
+        mp = dict(zip(labs, rng.sample(pool, len(labs))))
+        recs2 = [(mp[s], mp[d], ws) for s, d, ws in recs]
+        argv = ["--k", str(K), "--s", "17", "--maxit", "6"] + ([] if directed else ["--undirected"]) + (["--assortative"] if assort else [])
+        style = {"blank": False, "indent": False, "trailing": False, "eol": "\n", "final_newline": True}
+        ra = run_cli(self.bdir, argv, {"adjacency.dat": render_adjacency(rng, recs, style)}, os.path.join(work, "a%d" % k))
+        rb = run_cli(self.bdir, argv, {"adjacency.dat": render_adjacency(rng, recs2, style)}, os.path.join(work, "b%d" % k))
+        self.cov["evaluations"] += 2
+        self.monitor("command-line relabelled pairs")
+        replay = {"argv": argv, "files": {"adjacency.dat": render_adjacency(rng, recs2, style)}, "label_map": {str(a): str(b) for a, b in mp.items()},
+                  "original_records": recs}
+        if ra.rc != 0 or rb.rc != 0:
+            self.violate("label-dependent", "command line fails on a relabelled file (status %s / %s): %s" % (ra.rc, rb.rc, rb.err[-200:]), replay)
+            continue
+        bad = []
+        for name in sorted(set(ra.files) | set(rb.files)):
+            if name not in ra.files or name not in rb.files:
+                bad.append("file %s missing on one side" % name)
+                continue
+            ta, tb = read_tokens(ra.files[name]), read_tokens(rb.files[name])
+            if name.endswith("run_info.dat"):
+                ta = [l for l in ta if l[:2] != ["#", "Duration"]]
+                tb = [l for l in tb if l[:2] != ["#", "Duration"]]
+            if name.endswith("u_out.dat") or name.endswith("v_out.dat"):
+                ta = [[str(mp.get(int(l[0]), l[0]))] + l[1:] if l and l[0] != "#" else l for l in ta]
+            if ta != tb:
+                bad.append("%s differs beyond the row labels" % name)
+        self.nontrivial(("cli", str(recs2)))
+        if bad:
+            self.violate("label-dependent", "command line: relabelling with huge labels changes the result: " + "; ".join(bad), replay)
+    shutil.rmtree(work, ignore_errors=True)
+
+
+C12.cli_relabel = _c12_cli_relabel
 
 
 # ------------------------------------------------------------------------------ C15
